@@ -273,6 +273,8 @@ def outside_domain(d: Any) -> str | None:
         return "name-not-pep508"
     if d.constraint.is_empty() or d.marker.is_empty():
         return "unsatisfiable"          # nothing can satisfy it
+    if re.search(r'""|= "="', str(d.marker)):
+        return "marker-empty-literal"   # outside the C06 domain (printed as `name = "="`: a marker-text defect, C13's subject)
     if any(x and re.search(r"\s", x) for x in (d.source_url, d.source_reference, d.source_subdirectory)):
         return "url-with-whitespace"
     c = d.constraint
